@@ -20,8 +20,9 @@ SPEC = dict(
             _P("c28_big_suffix", "'bytes=-922337203685477580' b b; parse result"),
             _P("c28_any", "'bytes=' + every NUL-free value of 0..3 bytes; parse result"),
             _P("c28_prefix", "'bytes=0-1' with one byte of the 'bytes=' prefix symbolic"),
-            _C("c28_canon1", "1 spec built directly as parseInit() produces it: first-last (0<=first<=last<2^63-1), first-, -suffix with fully symbolic 63-bit numbers; clen fully symbolic in [0,2^63)"),
+            _C("c28_canon1", "1 spec built directly as parseInit() produces it: first-last (0<=first<=last<=2^63-1, last read as min(last,2^63-2)), first-, -suffix with fully symbolic 63-bit numbers; clen fully symbolic in [0,2^63)"),
             _C("c28_canon_list", "1..2 specs from the menu {2-4, 4-, -3, 7-(2^63-2)}, clen fully symbolic in [0,2^63)"),
+            dict(name="c28_known_lenient_spec", known=True, reach=[], max_samples=0, sample_every=0, bounds="KNOWN FINDING C28-lenient-spec only: 'bytes=1' b '-2' b restricted to headers in which some item is not a valid byte-range-spec but has a strtoll()-tolerant reading; strict assertion 'any invalid spec: header ignored'; its violations are listed in known_findings.json and printed as KNOWN-FINDING"),
         ],
         thorough=[
             _P("c28_one", "as quick"),
@@ -37,10 +38,10 @@ SPEC = dict(
             _P("c28_prefix", "as quick"),
             _C("c28_canon1", "as quick"),
             _C("c28_canon_list", "1..3 specs from the menu {2-4, 4-, -3, 7-(2^63-2), 0-0, -0}, clen fully symbolic in [0,2^63)"),
+            dict(name="c28_known_lenient_spec", known=True, reach=[], max_samples=0, sample_every=0, bounds="KNOWN FINDING C28-lenient-spec only: 'bytes=1' b '-2' b restricted to headers in which some item is not a valid byte-range-spec but has a strtoll()-tolerant reading; strict assertion 'any invalid spec: header ignored'; its violations are listed in known_findings.json and printed as KNOWN-FINDING"),
         ]),
     timeout=dict(quick=300, thorough=1200),
     stubs=["libc strtoll/strchr/strspn/strcspn/strncasecmp/isspace models (glibc semantics, C locale)", "memAllocBuf rounding as mem/old_api.cc", "debugs() disabled"],
     outside="field values other than the listed families; NUL inside the value; content length < 0 (callers refuse unknown lengths before canonize); MERGING_BREAKS_NOTHING builds (merging is compiled out); HttpHdrRange::canonize(HttpReply*) (length selection from the reply)",
-    assumptions=["EXCLUDED (finding candidate): specs that are not valid byte-range-specs but have a strtoll()-tolerant reading ('1x-2', '+1-2', '-5x', '1-2-3') are accepted by Squid instead of voiding the header",
-                 "EXCLUDED (finding candidate): last-byte-pos = 9223372036854775807 (last_pos + 1 overflows in HttpHdrRangeSpec::parseInit)"],
+    assumptions=["specs that are not valid byte-range-specs but have a strtoll()-tolerant reading ('1x-2', '+1-2', '-5x', '1-2-3') are examined by c28_known_lenient_spec only (known finding C28-lenient-spec) and excluded from every other entry"],
 )
